@@ -56,9 +56,10 @@ def main():
             if len(failures) >= 5:
                 break
     n = req.get("count", 1000)
-    while cases < n and len(failures) < 5 and time.time() - t0 < budget:
+    maxf = req.get('max_failures', 5)
+    while cases < n and len(failures) < maxf and time.time() - t0 < budget:
         one(spec["gen"](rng))
-    print(json.dumps({"cases": cases, "distinct_nontrivial": len(distinct), "failures": failures[:5],
+    print(json.dumps({"cases": cases, "distinct_nontrivial": len(distinct), "failures": failures[:maxf],
                       "samples": samples, "bounds": spec.get("bounds", ""), "time_s": round(time.time() - t0, 2)},
                      default=str))
 
